@@ -84,6 +84,7 @@ package otto
 //@ func (Value).float64
 //@   props C05
 //@   requires jsValue(v)
+//@   pure_if v.kind != valueObject
 //@   ensures isGoNumber(v) ==> sameFloat(result, numOf(v))
 //@   ensures v.kind == valueUndefined ==> isNaN(result)
 //@   ensures v.kind == valueNull ==> result == 0.0 && !signbit(result)
@@ -117,6 +118,7 @@ package otto
 //@ func (Value).number
 //@   props C05 C08 C09
 //@   requires jsValue(v)
+//@   pure_if v.kind != valueObject
 //@   ensures isGoNumber(v) && (is(v.value, float64) || is(v.value, uint) || is(v.value, uint64)) ==> result.int64 == satInt64(numOf(v))
 //@   ensures isGoNumber(v) && is(v.value, int) ==> result.int64 == int64(v.value.(int))
 //@   ensures isGoNumber(v) && is(v.value, int64) ==> result.int64 == v.value.(int64)
@@ -129,3 +131,119 @@ package otto
 //@   ensures isGoNumber(v) ==> (result.kind == numberNaN <==> isNaN(numOf(v)))
 //@   ensures isGoNumber(v) ==> (result.kind == numberInfinity <==> isInf(numOf(v)))
 //@   ensures isGoNumber(v) && fabs(numOf(v)) < 9223372036854775808.0 ==> (result.kind == numberInteger <==> numOf(v) == trunc(numOf(v)))
+
+// ---------------------------------------------------------------------------
+// trivial accessors and constructors: "inline" means the body is the contract
+// ---------------------------------------------------------------------------
+
+//@ func (Value).IsString
+//@   inline
+//@ func (Value).IsObject
+//@   inline
+//@ func (Value).IsNumber
+//@   inline
+//@ func (Value).IsBoolean
+//@   inline
+//@ func (Value).IsUndefined
+//@   inline
+//@ func (Value).IsNull
+//@   inline
+//@ func (Value).IsDefined
+//@   inline
+//@ func (Value).IsPrimitive
+//@   inline
+//@ func (Value).isEmpty
+//@   inline
+//@ func (Value).object
+//@   inline
+//@ func NaNValue
+//@   inline
+//@ func positiveInfinityValue
+//@   inline
+//@ func negativeInfinityValue
+//@   inline
+//@ func positiveZeroValue
+//@   inline
+//@ func negativeZeroValue
+//@   inline
+//@ func intValue
+//@   inline
+//@ func int32Value
+//@   inline
+//@ func int64Value
+//@   inline
+//@ func uint16Value
+//@   inline
+//@ func uint32Value
+//@   inline
+//@ func float64Value
+//@   inline
+//@ func stringValue
+//@   inline
+//@ func boolValue
+//@   inline
+//@ func objectValue
+//@   inline
+
+// ---------------------------------------------------------------------------
+// evaluate.go, value.go, value_boolean.go, value_primitive.go: operator kernels
+// ---------------------------------------------------------------------------
+
+// ES5 11.5.2: the result of / is the IEEE 754 quotient, for all 2^128 operand pairs.
+//@ func (*runtime).evaluateDivide
+//@   props C05
+//@   ensures result.kind == valueNumber && is(result.value, float64)
+//@   ensures sameFloat(result.value.(float64), left / right)
+//@   nothrow
+
+// ES5 9.12 SameValue on numbers, booleans, undefined, null (strings/objects: by the
+// code's own comparison, not specified here).
+//@ func sameValue
+//@   props C05 C07
+//@   requires jsValue(x) && jsValue(y)
+//@   ensures x.kind != y.kind ==> !result
+//@   ensures x.kind == y.kind && (x.kind == valueUndefined || x.kind == valueNull) ==> result
+//@   ensures isGoNumber(x) && isGoNumber(y) ==> (result <==> (isNaN(numOf(x)) && isNaN(numOf(y))) || (numOf(x) == numOf(y) && (numOf(x) == 0.0 ==> signbit(numOf(x)) == signbit(numOf(y)))))
+//@   ensures x.kind == valueBoolean && y.kind == valueBoolean ==> (result <==> x.value.(bool) == y.value.(bool))
+//@   ensures x.kind == valueObject && y.kind == valueObject ==> (result <==> x.value.(*object) == y.value.(*object))
+
+// ES5 11.9.6 strict equality.
+//@ func strictEqualityComparison
+//@   props C05
+//@   requires jsValue(x) && jsValue(y)
+//@   ensures x.kind != y.kind ==> !result
+//@   ensures x.kind == y.kind && (x.kind == valueUndefined || x.kind == valueNull) ==> result
+//@   ensures isGoNumber(x) && isGoNumber(y) ==> (result <==> numOf(x) == numOf(y))
+//@   ensures x.kind == valueBoolean && y.kind == valueBoolean ==> (result <==> x.value.(bool) == y.value.(bool))
+//@   ensures x.kind == valueObject && y.kind == valueObject ==> (result <==> x.value.(*object) == y.value.(*object))
+
+// ES5 9.2 ToBoolean.
+//@ func (Value).bool
+//@   props C05
+//@   requires jsValue(v)
+//@   ensures v.kind == valueUndefined || v.kind == valueNull ==> !result
+//@   ensures v.kind == valueBoolean ==> result == v.value.(bool)
+//@   ensures isGoNumber(v) ==> (result <==> !(isNaN(numOf(v)) || numOf(v) == 0.0))
+//@   ensures v.kind == valueString && is(v.value, string) ==> (result <==> len(v.value.(string)) != 0)
+//@   ensures v.kind == valueObject ==> result
+
+// ES5 9.1 ToPrimitive: identity on primitives; objects go through [[DefaultValue]].
+//@ func toPrimitive
+//@   props C05
+//@   requires jsValue(value)
+//@   ensures value.kind != valueObject ==> result == value
+//@   ensures jsValue(result) && result.kind != valueObject
+//@   pure_if value.kind != valueObject
+//@ func toNumberPrimitive
+//@   inline
+//@ func toPrimitiveValue
+//@   inline
+
+// ES5 11.8.5 abstract relational comparison on numeric operands, including the
+// undefined outcome when either is NaN.
+//@ func calculateLessThan
+//@   props C05
+//@   requires jsValue(left) && jsValue(right)
+//@   ensures isGoNumber(left) && isGoNumber(right) && (isNaN(numOf(left)) || isNaN(numOf(right))) ==> result == lessThanUndefined
+//@   ensures isGoNumber(left) && isGoNumber(right) && !(isNaN(numOf(left)) || isNaN(numOf(right))) ==> (result == lessThanTrue <==> numOf(left) < numOf(right)) && (result == lessThanFalse <==> !(numOf(left) < numOf(right)))
+//@   ensures result == lessThanTrue || result == lessThanFalse || result == lessThanUndefined
